@@ -6,3 +6,5 @@ pub mod paths;
 pub mod texts;
 pub mod lua_ast;
 pub mod configs;
+pub mod markup;
+pub mod schemas;
